@@ -25,10 +25,20 @@ def sc(x):
 
 
 def mutable_pairs(a, b):
-    """Pairs of corresponding mutable data values of two elements."""
+    """Pairs of corresponding mutable data values of two elements, at any depth (also inside tuples)."""
+    def walk(k, x, y):
+        if isinstance(x, (list, dict, set)):
+            yield k, x, y
+        if isinstance(x, (list, tuple)) and isinstance(y, (list, tuple)) and len(x) == len(y):
+            for xi, yi in zip(x, y):
+                yield from walk(k, xi, yi)
+        elif isinstance(x, dict) and isinstance(y, dict):
+            for kk in x:
+                if kk in y:
+                    yield from walk(k, x[kk], y[kk])
     for k, v in a.data.items():
-        if isinstance(v, (list, dict, set)) and k in b:
-            yield k, v, b[k]
+        if k in b:
+            yield from walk(k, v, b[k])
 
 
 class SideGen(Gen):
